@@ -84,8 +84,11 @@ def gen_strict_invalid(r, cfg, strict=1):
         ops.append("alloc %d 0 %d" % (4 * cfg.bsz if i == m - 1 else F.rand_len(r, cfg), F.NO_OVER))
     ops += ["dealloc #1", "check"]          # m-1 live regions, the last one (index m-2) has 4 blocks
     for _ in range(r.randrange(1, 4)):
-        k = r.randrange(3)
-        if k == 0:      # a free range far away
+        k = r.randrange(4)
+        if k == 3:      # reallocate a range that is not allocated
+            ops.append("rawrealloc %d %d %d %d" % (cfg.bsz * r.randrange(20000, 30000), cfg.bsz * r.choice([1, 3, 64]),
+                                                    cfg.bsz * r.choice([65, 100, 500]), F.NO_OVER | r.choice([0, F.SOLID])))
+        elif k == 0:      # a free range far away
             ops.append("rawdealloc %d %d" % (cfg.bsz * r.randrange(20000, 30000), cfg.bsz * r.choice([1, 3, 64])))
         elif k == 1:    # live region plus free blocks after the last one
             ops.append("rawdealloc #%d %d" % (r.randrange(50), cfg.bsz * 3000))
